@@ -38,6 +38,8 @@
   * `C07_slur_update_partial`, `C07_psg_update_partial`: slurred FM notes and PSG melody channels,
     per update, on any pass;
   * `C07_export_extent_noloop_partial`: where the log of a track without loop point ends.
+  * `C07_loop_marker_partial`: with one channel track the loop marker is written in exactly the updates in
+    which a `SEGNO` is delivered and the channel plays on (`loop_trigger` instance of the chain).
   What is NOT proved here and rests on the schedule oracle (Spec/Schedule run on every real
   export by the check) and on the byte-exact correspondence: the loop-count lemma of
   `export_extent` (looping songs), several channels in one statement, slurs / PSG composed over
@@ -45,7 +47,8 @@
   Known findings (known_findings.txt): `short-note` (at more than one tick per update the key-on
   of a note that ends inside the update it starts in is written after its key-off), `segno-in-sub`
   and `segno-in-loop` (a loop point below the top level of the channel's track: the player keeps
-  only an index, the second pass resumes elsewhere — excluded by `SegTop`).
+  only an index, the second pass resumes elsewhere — excluded by `SegTop`), `short-loop` (a loop section
+  shorter than the rest of the update that reads the loop point: no loop marker, the export stops).
 -/
 import Ctrmml.Proofs.MdDriver
 import Ctrmml.Proofs.TickStream
